@@ -316,7 +316,7 @@ class Interp(object):
                     return self.folder.class_const(c[0], c[1], self.mod)
                 except Unfoldable:
                     pass
-            if c and len(c) == 2 and c[0] == 'cls' and env.get('__cls__') is not None:
+            if c and len(c) == 2 and (c[0] == 'cls' or (c[0] == 'self' and c[1].upper() == c[1])) and env.get('__cls__') is not None:
                 try:
                     return self.folder.class_const(env['__cls__'].name, c[1], self.mod)
                 except Unfoldable:
@@ -358,25 +358,39 @@ class Interp(object):
             if isinstance(base, (tuple, list, dict)) and not isinstance(idx, (Sym, TriVal)) and idx is not UNKNOWN:
                 try:
                     return base[idx]
+                except KeyError:
+                    raise _Raise('KeyError', e)
+                except IndexError:
+                    raise _Raise('IndexError', e)
                 except Exception:
                     pass
             return Sym(src(e))
         if isinstance(e, (ast.ListComp, ast.GeneratorExp, ast.SetComp, ast.DictComp)):
             return self.comprehension(e, env)
+        if isinstance(e, ast.Starred):
+            self.eval(e.value, env)
+            return Sym(src(e))
         if isinstance(e, ast.JoinedStr):
             return Sym(src(e))
         if isinstance(e, ast.Dict):
+            for k, v in zip(e.keys, e.values):
+                if k is not None:
+                    self.eval(k, env)
+                self.eval(v, env)
             return Sym(src(e))
         if isinstance(e, ast.Lambda):
             return Sym(src(e))
         return Sym(src(e))
 
     def comprehension(self, e, env):
-        """a comprehension is a loop whose body's events are recorded once."""
+        """a comprehension is a loop whose body's events are recorded once; the first iterable is
+        evaluated before the loop starts (as Python does)."""
         env2 = dict(env)
-        self.events.append(('loop', ' '.join(src(g.iter) for g in e.generators)))
-        for g in e.generators:
-            self.eval(g.iter, env2)
+        first = self.eval(e.generators[0].iter, env2)
+        self.events.append(('loop', text_of(first) if isinstance(first, (Sym, TriVal)) else src(e.generators[0].iter)))
+        for i, g in enumerate(e.generators):
+            if i:
+                self.eval(g.iter, env2)
             self.bind_syms(g.target, env2)
         try:
             if isinstance(e, ast.DictComp):
@@ -479,6 +493,8 @@ class Interp(object):
                 if isinstance(a, (tuple, list, str, bytes, dict)):
                     return len(a)
                 return Sym('len(%s)' % text_of(a))
+            if c[0] == 'bool' and len(args) == 1 and not isinstance(args[0], (Sym, TriVal)) and args[0] is not UNKNOWN:
+                return bool(args[0])
             if c[0] in ('min', 'max') and args and all(isinstance(a, (int, float)) for a in args):
                 return {'min': min, 'max': max}[c[0]](*args)
             if c[0] == 'isinstance' or c[0] == 'getattr' or c[0] == 'hasattr':
